@@ -375,6 +375,20 @@ func c16Spec(env *core.Env, sp specFn) {
 			} else if r.IsValue() {
 				env.Violatef("C16/unimplemented-returns-value/"+sp.Name, "`%s`: unimplemented function returned %s instead of an error", src, trunc(r.Short(), 120))
 			}
+			// ... whatever it is called on: no items, one item, items of every kind (the error does not depend on the input)
+			if sp.Recv != "" && strings.HasPrefix(src, sp.Recv+".") {
+				call := strings.TrimPrefix(src, sp.Recv+".")
+				for _, rc := range []string{"{}", "%emptyc", "%nilc", "Patient.photo", "Patient.name.suffix", "1", "'a'", "true", "Patient", "Patient.name", "%multi", "%fstr", "(1 | 2)", "@2020"} {
+					rr := fx.Eval(env, rc+"."+call, in, co, eo)
+					env.Cover("unimplemented-other-receiver")
+					if rr.IsPanic() {
+						env.Violatef(fx.PanicSig("C16", rr), "`%s.%s` => %s", rc, call, rr.Short())
+					} else if rr.IsValue() && r.Kind == "error" {
+						env.Violatef("C16/unimplemented-returns-value/"+sp.Name+"/other-receiver", "`%s.%s`: unimplemented function returned %s instead of the error it gives on `%s` (%v)", rc, call, trunc(rr.Short(), 80), sp.Recv, r.Err)
+						break
+					}
+				}
+			}
 		}
 		return
 	}
